@@ -196,6 +196,9 @@ pub fn gen_manifest(rng: &mut Rng, dup_outputs: bool) -> AManifest {
                 let name = format!("r{}{}", counter, ["", ".x", "-y"][rng.below(3)]); counter += 1;
                 let mut vars = vec![];
                 let mut refs = filevars.clone(); refs.extend(["in".into(), "out".into(), "in_newline".into(), "out_newline".into(), "bvar".into()]);
+                // names of the rule's OWN attributes: a rule binding that mentions a sibling (`command = cc @$rspfile`,
+                // `description = $command`) must not see the sibling's value (only build-block and file scope)
+                if rng.chance(1, 3) { refs.extend(["depfile".into(), "rspfile".into(), "description".into(), "pool".into(), "command".into(), "rspfile_content".into()]); }
                 vars.push(("command".to_string(), { let mut v = vec![Tok::Lit("cmd ".into())]; v.extend(gen_val(rng, &refs, false)); v }));
                 if rng.chance(1, 3) { vars.push(("description".into(), if rng.chance(1, 6) { vec![] } else { gen_val(rng, &refs, false) })); }
                 if rng.chance(1, 4) { vars.push(("depfile".into(), vec![Tok::Var("out".into()), Tok::Lit(".d".into())])); }
